@@ -8,6 +8,6 @@ for entry in $MAP; do
   id=${entry%%:*}; pids=${entry##*:}
   if [ $# -gt 0 ]; then case " $* " in *" $id "*) ;; *) continue;; esac; fi
   for pid in $(echo $pids | tr ',' ' '); do
-    .venv/bin/python tools/mutant_eval.py check $WT seeded/$id -- $pid --tier ${TIER:-quick} --no-evidence --procs 16 >> $OUT
+    .venv/bin/python tools/mutant_eval.py check $WT /verif/seeded/$id -- $pid --tier ${TIER:-quick} --no-evidence --procs 16 >> $OUT
   done
 done
